@@ -12,7 +12,10 @@
      roll                 -> roll              (sequence = 1 + max sequence among rolled files of the
                                                 period being closed; rename; reopen; cleanup)
      find_rolled_files    -> the field `rolled`, kept in the order find_rolled_files+sort produce
-                             (newest first: period descending, then sequence descending)
+                             (newest first: period descending, then sequence descending); only files named
+                             "<prefix>.<period>.<seq>..." are the appender's (since /repo 95e064e the '.' after
+                             the prefix is required): everything else is in `foreign` and no step reads or
+                             writes that field
      cleanup              -> firstn/skipn by max_retained, then compress_from max_uncompressed
      compress_file        -> gz (same period/sequence/content, name gains the compressed suffix)
      calculate_period_start -> eff             ("never" pins every time to one period)
@@ -52,18 +55,26 @@ Record state := mkState {
   abuf : list rcd;                (* active file: bytes still in the BufWriter *)
   cur_size : N;                   (* CustomRoller.current_size *)
   cur_period : N;                 (* CustomRoller.current_period_start *)
-  gone : list (N * N) }.          (* ghost: (period, seq) of every rolled file deleted so far *)
+  gone : list (N * N);            (* ghost: (period, seq) of every rolled file deleted so far *)
+  foreign : list (N * list rcd) }.  (* files in the directory that are not this appender's: sibling
+                                     appenders sharing the prefix ("<prefix>_time.<period>.<seq><suffix>"),
+                                     unrelated files; (opaque name id, content) *)
 
 (* abstract directory view: structured names *)
-Inductive name := Active | Rolled (p s : N) (z : bool).
+Inductive name := Active | Rolled (p s : N) (z : bool) | Foreign (n : N).
 
 Definition dir_of (st : state) : list (name * list rcd) :=
-  (Active, adisk st) :: map (fun f => (Rolled (rp f) (rs f) (rz f), rdata f)) (rolled st).
+  (Active, adisk st) :: map (fun f => (Rolled (rp f) (rs f) (rz f), rdata f)) (rolled st)
+    ++ map (fun x => (Foreign (fst x), snd x)) (foreign st).
+
+(* the same roller state in a directory with other foreign files *)
+Definition with_foreign (st : state) (fs : list (N * list rcd)) : state :=
+  mkState (rolled st) (adisk st) (abuf st) (cur_size st) (cur_period st) (gone st) fs.
 
 Definition eff (pol : policy) (p : N) : N := if p_never pol then 0 else p.
 
 Definition flush (st : state) : state :=
-  mkState (rolled st) (adisk st ++ abuf st) [] (cur_size st) (cur_period st) (gone st).
+  mkState (rolled st) (adisk st ++ abuf st) [] (cur_size st) (cur_period st) (gone st) (foreign st).
 
 (* roll, step 3: highest sequence among the rolled files of period p (0 if none) *)
 Fixpoint last_seq (p : N) (l : list rfile) : N :=
@@ -108,24 +119,24 @@ Definition roll (pol : policy) (st : state) (now : N) : state :=
   let kept := match p_max_retained pol with Some m => firstn (N.to_nat m) all | None => all end in
   let del := match p_max_retained pol with Some m => skipn (N.to_nat m) all | None => [] end in
   let kept' := match p_compression pol with Some k => compress_from (N.to_nat k) kept | None => kept end in
-  mkState kept' [] [] 0 (eff pol now) (map key del ++ gone st).
+  mkState kept' [] [] 0 (eff pol now) (map key del ++ gone st) (foreign st).
 
 (* BufWriter::write of one record (std: write / write_cold) *)
 Definition bufwrite (st : state) (r : rcd) : state :=
   let n := snd r in
   let spare := bufcap - bytes (abuf st) in
   if n <? spare then
-    mkState (rolled st) (adisk st) (abuf st ++ [r]) (cur_size st) (cur_period st) (gone st)
+    mkState (rolled st) (adisk st) (abuf st ++ [r]) (cur_size st) (cur_period st) (gone st) (foreign st)
   else
     let st1 := if spare <? n then flush st else st in
     if bufcap <=? n then
-      mkState (rolled st1) (adisk st1 ++ [r]) (abuf st1) (cur_size st1) (cur_period st1) (gone st1)
+      mkState (rolled st1) (adisk st1 ++ [r]) (abuf st1) (cur_size st1) (cur_period st1) (gone st1) (foreign st1)
     else
-      mkState (rolled st1) (adisk st1) (abuf st1 ++ [r]) (cur_size st1) (cur_period st1) (gone st1).
+      mkState (rolled st1) (adisk st1) (abuf st1 ++ [r]) (cur_size st1) (cur_period st1) (gone st1) (foreign st1).
 
 Definition append (st : state) (r : rcd) : state :=
   let st' := bufwrite st r in
-  mkState (rolled st') (adisk st') (abuf st') (cur_size st + snd r) (cur_period st') (gone st').
+  mkState (rolled st') (adisk st') (abuf st') (cur_size st + snd r) (cur_period st') (gone st') (foreign st').
 
 Definition write (pol : policy) (st : state) (now : N) (r : rcd) : state :=
   let st1 := if cur_period st <? eff pol now then roll pol st now else st in
@@ -140,10 +151,11 @@ Definition write (pol : policy) (st : state) (now : N) (r : rcd) : state :=
 (* drop(roller) (BufWriter flushes on drop) ; new_at_time(policy, now) *)
 Definition restart (pol : policy) (st : state) (now : N) : state :=
   let st1 := flush st in
-  mkState (rolled st1) (adisk st1) [] (bytes (adisk st1)) (eff pol now) (gone st1).
+  mkState (rolled st1) (adisk st1) [] (bytes (adisk st1)) (eff pol now) (gone st1) (foreign st1).
 
-Definition start (pol : policy) (now : N) : state :=
-  mkState [] [] [] 0 (eff pol now) [].
+(* fs = the foreign files already in the directory when the appender starts *)
+Definition start (pol : policy) (fs : list (N * list rcd)) (now : N) : state :=
+  mkState [] [] [] 0 (eff pol now) [] fs.
 
 Inductive op := Write (p : N) (r : rcd) | Restart (p : N) | Flush.
 
@@ -157,8 +169,8 @@ Definition step (pol : policy) (st : state) (o : op) : state :=
 Definition run_from (pol : policy) (st : state) (ops : list op) : state :=
   fold_left (step pol) ops st.
 
-Definition run (pol : policy) (p0 : N) (ops : list op) : state :=
-  run_from pol (start pol p0) ops.
+Definition run (pol : policy) (fs : list (N * list rcd)) (p0 : N) (ops : list op) : state :=
+  run_from pol (start pol fs p0) ops.
 
 (* the stream of records handed to the appender (empty buffers write nothing) *)
 Definition written (ops : list op) : list rcd :=
